@@ -528,13 +528,14 @@ func init() {
 		TrustedBase: []string{
 			"harness/props/c05 (YAML builders for templates and role trees, decoding of ACCEPT/DECLINE calls, mode probe on two fixed witnesses)",
 			"/repo/core/task/verif_hooks_c05.go (build tag verif): schedulerState with a recording calls.Caller instead of the Mesos master; synchronous makeTaskForMesosResources",
+			"harness/props/c05/facts.go: go/ast reading of makeTaskForMesosResources (Remove literals; emptiness test in front of every Min(); static ranges subtracted before the first draw; cpus/mem subtracted after they enter the request)",
 			"gopkg.in/yaml.v3 + the repo's UnmarshalYAML methods for task templates and roles",
 			"the Lean driver tries every order in which the per-offer goroutines may have taken descriptorsMu (<= 24) and accepts if one reproduces the observation",
 		},
 		Assumptions: []string{
 			"one resource per name in an offer (cpus, mem, ports), default role, no reservations — what a Mesos master sends to a non-MULTI_ROLE framework",
 			"static ranges with begin <= end and all numbers < 2^63 in Resources.Satisfy inputs (no uint64 wrap-around modelled)",
-			"executor resources are empty in the hook's ExecutorInfo, so a task requests exactly its template's wants",
+			"executor resources are empty in the hook's ExecutorInfo, so a task requests exactly its template's wants (the executor's share is not subtracted from what remains of an offer, nor looked at by Resources.Satisfy)",
 			"ACCEPT/DECLINE calls always succeed; BuildTaskCommand succeeds (templates without expressions)",
 		},
 	})
